@@ -349,7 +349,12 @@ func (r *Resolver) onSetOrList(g *Scope, name string, t *parser.Type, v *parser.
 				return "", err
 			}
 			if r.util.Features().ValueTypeForSIC && t.ValueType.Category.IsStructLike() {
-				str = strings.TrimPrefix(str, "&") // value_type_in_container: elements are values
+				// value_type_in_container: elements are values
+				if elem.Type == parser.ConstType_ConstIdentifier {
+					str = "*" + str // a constant of struct type is a pointer
+				} else {
+					str = strings.TrimPrefix(str, "&")
+				}
 			}
 			ss = append(ss, str+",")
 		}
@@ -392,7 +397,12 @@ func (r *Resolver) onMap(g *Scope, name string, t *parser.Type, v *parser.ConstV
 				return "", err
 			}
 			if r.util.Features().ValueTypeForSIC && t.ValueType.Category.IsStructLike() {
-				val = strings.TrimPrefix(val, "&") // value_type_in_container: elements are values
+				// value_type_in_container: elements are values
+				if mcv.Value.Type == parser.ConstType_ConstIdentifier {
+					val = "*" + val // a constant of struct type is a pointer
+				} else {
+					val = strings.TrimPrefix(val, "&")
+				}
 			}
 			kvs = append(kvs, fmt.Sprintf("%s: %s,", key, val))
 		}
